@@ -100,7 +100,9 @@ type Case struct {
 	ErrFn  string   `json:"errfn,omitempty"`
 	// err family, call form only: the failing call f(args) sits inside an operator expression:
 	//   not: !f(args)   notparen: !(f(args))   or: !X || f(args)   and: !X && f(args)
-	// X (WrapX) is a bool path chosen so that the right operand has to be evaluated.
+	//   inner: G(f(args))   innerop: G(f(args)) == 'x'   (the failing call directly behind G's "(")
+	// X (WrapX) is a bool path chosen so that the right operand has to be evaluated, or G.
+	// With more than one stage and Call, the call is the INPUT of a pipe: f(args) | g | h.
 	// expr / neg family: the expression is evaluated inside nested v-for scopes (outermost first)
 	// that rebind a root variable: the reference evaluator resolves innermost-first.
 	Scope []Bind `json:"scope,omitempty"`
@@ -162,7 +164,18 @@ func (c Case) Text() string {
 	}
 	if c.Call {
 		f := c.Stages[0].Text()
+		if len(c.Stages) > 1 {
+			// the call is the INPUT of a pipe: f(args) | g | h
+			for _, s := range c.Stages[1:] {
+				f += " | " + s.Text()
+			}
+			return f
+		}
 		switch c.Wrap {
+		case "inner":
+			return c.WrapX + "(" + f + ")"
+		case "innerop":
+			return c.WrapX + "(" + f + ") == 'x'"
 		case "not":
 			return "!" + f
 		case "notparen":
@@ -721,17 +734,94 @@ func checkErr(c Case, env map[string]any, pos []string) error {
 			return fmt.Errorf("CHECK-BUG: %s: left operand %s=%v lets the call be skipped", src, c.WrapX, x)
 		}
 	}
+	// the failing function is the left-most one that fails; every function to its right is
+	// never reached and must not be the one the error blames
+	var later []string
+	if c.Call {
+		for _, st := range c.Stages[1:] {
+			if st.F != c.ErrFn && !contains(later, st.F) {
+				later = append(later, st.F)
+			}
+		}
+		if (c.Wrap == "inner" || c.Wrap == "innerop") && c.WrapX != c.ErrFn {
+			later = append(later, c.WrapX) // the enclosing function is never called
+		}
+	} else {
+		failing := -1
+		for k := 1; k <= len(c.Stages) && failing < 0; k++ {
+			cut := c
+			cut.Stages = c.Stages[:k]
+			if _, st, merr := evalPipe(cut, env); st != convOK || merr != nil {
+				failing = k - 1
+			}
+		}
+		if failing < 0 || c.Stages[failing].F != c.ErrFn {
+			return fmt.Errorf("CHECK-BUG: %s: the model's first failing stage is %d, not %s", src, failing, c.ErrFn)
+		}
+		for _, st := range c.Stages[failing+1:] {
+			if st.F != c.ErrFn && !contains(later, st.F) {
+				later = append(later, st.F)
+			}
+		}
+	}
 	eng := newEngine(env, src)
 	for _, p := range pos {
 		out, err := eng.render(templateFor(p, src))
 		if err == nil {
 			return fmt.Errorf("`%s` in position %s (env %d): %s (%s) but the render succeeded with %q; it must fail with an error naming %s", src, p, c.Env, whyText(c.Why), c.ErrFn, out, c.ErrFn)
 		}
-		if !strings.Contains(err.Error(), c.ErrFn) {
-			return fmt.Errorf("`%s` in position %s (env %d): error %q does not name the function %s", src, p, c.Env, err.Error(), c.ErrFn)
+		// the error text usually quotes the whole expression; what it says about the failure is the rest
+		said := strings.ReplaceAll(err.Error(), src, "")
+		if !namesFunc(said, c.ErrFn) {
+			return fmt.Errorf("`%s` in position %s (env %d): %s (%s): the error %q does not name the function %s (apart from quoting the expression)", src, p, c.Env, whyText(c.Why), c.ErrFn, err.Error(), c.ErrFn)
+		}
+		for _, l := range later {
+			if blamesFunc(said, l) {
+				return fmt.Errorf("`%s` in position %s (env %d): %s fails first (%s), but the error %q blames %s, which is further right and never reached", src, p, c.Env, c.ErrFn, whyText(c.Why), err.Error(), l)
+			}
 		}
 	}
 	return nil
+}
+
+// namesFunc reports whether text mentions name as a word of its own.
+func namesFunc(text, name string) bool {
+	for i := 0; ; {
+		j := strings.Index(text[i:], name)
+		if j < 0 {
+			return false
+		}
+		j += i
+		before := j == 0 || !isWordByte(text[j-1])
+		after := j+len(name) == len(text) || !isWordByte(text[j+len(name)])
+		if before && after {
+			return true
+		}
+		i = j + 1
+	}
+}
+
+// blamesFunc is the cautious converse: name appears as a function - followed by "(" or in
+// quotes - and not merely as a word (string and int are also type names in conversion errors).
+func blamesFunc(text, name string) bool {
+	for _, q := range []string{name + "(", "'" + name + "'", `"` + name + `"`, "`" + name + "`"} {
+		for i := 0; ; {
+			j := strings.Index(text[i:], q)
+			if j < 0 {
+				break
+			}
+			j += i
+			if q[0] != name[0] || j == 0 || !isWordByte(text[j-1]) {
+				return true
+			}
+			i = j + 1
+		}
+	}
+	return false
+}
+
+func isWordByte(b byte) bool {
+	return b == '_' || b >= '0' && b <= '9' || b >= 'a' && b <= 'z' || b >= 'A' && b <= 'Z'
 }
 
 func whyText(w string) string {
